@@ -33,7 +33,7 @@ func openFDs() int {
 	return len(es)
 }
 
-func runLife(t *testing.T, variant string, op, k, class int) (status int, kept, resNil bool, handles sxList, counts [5]int, fdLeak int, fired int) {
+func runLife(t *testing.T, variant string, op, k, class int, cancelAt time.Duration) (status int, kept, resNil bool, handles sxList, counts [5]int, fdLeak int, fired int) {
 	// sockets the run opens itself (the UDP socket that yields the local address and holds the source port, the TCP
 	// port-reservation listener) are real ones: with the collector off - a finalizer would close a forgotten socket and
 	// hide it - the number of open descriptors after the run must be what it was before
@@ -97,12 +97,17 @@ func runLife(t *testing.T, variant string, op, k, class int) (status int, kept, 
 					status = 2
 				}
 			}()
-			res, err = traceroute.VerifRunTracerouteOnce(context.Background(), p, 33434)
+			ctx, cancel := context.WithCancel(context.Background())
+			defer cancel()
+			if cancelAt > 0 {
+				time.AfterFunc(cancelAt, cancel)
+			}
+			res, err = traceroute.VerifRunTracerouteOnce(ctx, p, 33434)
 		}()
 		if status != 2 && err != nil {
 			status = 1
 		}
-		kept = err != nil && (errors.Is(err, injectedCause) || errors.Is(err, os.ErrDeadlineExceeded))
+		kept = err != nil && (errors.Is(err, injectedCause) || errors.Is(err, os.ErrDeadlineExceeded) || (cancelAt > 0 && errors.Is(err, context.Canceled)))
 		resNil = res == nil
 		// anything still running after the call returned would touch the (closed) handles when it next wakes
 		time.Sleep(2 * time.Second)
@@ -128,10 +133,10 @@ func labLife(e labEnv) {
 	tags := map[string]int{}
 	variants := []string{"udp", "icmp", "tcp", "udp6", "icmp6"}
 	for vi, v := range variants {
-		_, _, _, _, base, _, _ := runLife(e.t, v, -1, 0, 0)
+		_, _, _, _, base, _, _ := runLife(e.t, v, -1, 0, 0, 0)
 		plan := L(sxInt(int64(base[2])), sxInt(int64(base[3])), sxInt(int64(base[4])))
 		put := func(op, k, class int) {
-			st, kept, rn, hs, _, fdLeak, fired := runLife(e.t, v, op, k, class)
+			st, kept, rn, hs, _, fdLeak, fired := runLife(e.t, v, op, k, class, 0)
 			if hs == nil {
 				hs = sxList{}
 			}
@@ -159,6 +164,20 @@ func labLife(e labEnv) {
 					put(op, k, class)
 				}
 			}
+		}
+	}
+	// kind 29: no fault at all, but the caller's context ends while the run is under way (sender asleep between probes, receiver
+	// inside a Read): whatever the run returns, it has stopped using its handles - no operation still executing - when it
+	// closes them and returns
+	//   input (29 variant cancel_at_ns)   impl (status is_the_context_error result_nil (src_closes snk_closes used_after_close)... fd_leak)
+	for vi, v := range variants {
+		for _, at := range []time.Duration{5*time.Millisecond + 333, 35*time.Millisecond + 333, 120*time.Millisecond + 333, 255*time.Millisecond + 333, 400*time.Millisecond + 333} {
+			st, kept, rn, hs, _, fdLeak, _ := runLife(e.t, v, -1, 0, 0, at)
+			if hs == nil {
+				hs = sxList{}
+			}
+			w.put(L(sxInt(29), sxInt(int64(vi)), sxInt(int64(at))), L(sxInt(int64(st)), sxBool(kept), sxBool(rn), hs, sxInt(int64(fdLeak))))
+			tags["context_ends_midway:"+v]++
 		}
 	}
 	// kind 16: a SendProbe that is already in flight when the destination answer is processed, and then fails
